@@ -199,6 +199,29 @@ def map_roots(b, o):
     return {x for x in leaves(e) if x[0] in ("arg", "local", "field")}
 
 
+def derived_locals(b, seeds):
+    """locals whose value is a projection / copy / aggregate of the seed locals only (a popped element taken apart, re-tupled, bound to names)"""
+    out = set(seeds)
+    grew = True
+    while grew:
+        grew = False
+        for i, j, st in b.stmts():
+            l = st["lhs"]["l"]
+            if l in out or st["lhs"]["p"]:
+                continue
+            rv = st["rv"]
+            if rv["k"] in ("use", "cast") and op_place(rv["o"][0]) is not None and op_place(rv["o"][0])["l"] in out:
+                out.add(l)
+                grew = True
+            elif rv["k"] == "agg" and rv["o"] and all((op_place(o_) is not None and op_place(o_)["l"] in out) for o_ in rv["o"]):
+                out.add(l)
+                grew = True
+            elif rv["k"] == "ref" and rv["pl"]["l"] in out:
+                out.add(l)
+                grew = True
+    return out
+
+
 class Obl:
     """collects obligations of one rule"""
 
